@@ -83,7 +83,8 @@ AE_PREFIX = (None, "gz", "x, gz", "defla")
 DEC_CT = (0, 2, 1, 3, 4, 5)     # h_gzip_decide: index 0,1 = one compressible + one non-compressible type
 _STUBS = ["tornado.web.gzip.GzipFile replaced by a tagged invertible pure-Python codec (zlib is C)",
           "GZipContentEncoding.MIN_LENGTH patched 1024 -> 3", "FakeStream + virtual loop; logging "
-          "disabled; fixed time.time()", "request 'GET /a HTTP/1.1' (or HEAD) concrete; chunk contents concrete"]
+          "disabled; fixed time.time()", "requests 'GET /a HTTP/1.1' and 'HEAD /a HTTP/1.1' (same headers, same program, two connections) "
+          "concrete; chunk contents concrete"]
 
 
 def _serve(method, ae_value, ct, preset, prog):
@@ -164,6 +165,28 @@ def _check(method, mentions_gzip, ct, preset, prog, wire, closed):
     assert got == B, "client decodes %r, handler wrote %r" % (got, B)
 
 
+def _check_head_equals_get(wire_get, closed_get, wire_head, closed_head):
+    """C02/C29: a HEAD request yields the same status, Content-Encoding, Vary and Content-Length as
+    the GET for the same program and request headers (Content-Length = length of the body the GET
+    carries, i.e. of the ENCODED body), with an empty body."""
+    g = rig.read_all(wire_get, ["GET"], closed_get)[0][0]
+    resps, left = rig.read_all(wire_head, ["HEAD"], closed_head)
+    assert len(resps) == 1 and left == "clean", "HEAD: not exactly one complete response: %r" % wire_head
+    h = resps[0]
+    assert h.body == b"" and h.mode == "none"
+    assert h.code == g.code, "HEAD status %d != GET status %d" % (h.code, g.code)
+    for name in (b"content-encoding", b"vary", b"content-length", b"content-type"):
+        assert h.get_all(name) == g.get_all(name), \
+            "HEAD %s %r != GET %r" % (name.decode(), h.get_all(name), g.get_all(name))
+    if g.get(b"content-length") is not None:
+        reached("head_content_length_checked")
+        assert int(h.get(b"content-length")) == len(g.body), \
+            "HEAD Content-Length %r != length of the GET body %d" % (h.get(b"content-length"), len(g.body))
+    if g.get(b"content-encoding") == b"gzip":
+        reached("head_of_encoded")
+    assert h.get(b"transfer-encoding") is None
+
+
 def pre_stream(ct: int, prog: List[Tuple[int, int]]) -> bool:
     if not (0 <= ct < P.T and len(prog) <= P.N):
         return False
@@ -178,7 +201,8 @@ def pre_stream(ct: int, prog: List[Tuple[int, int]]) -> bool:
     quick=dict(T=3, N=2, A=3, timeout=150, reach_timeout=60),
     thorough=dict(T=6, N=3, A=4, timeout=1500, reach_timeout=90),
     nshards=dict(quick=9, thorough=24),
-    reach=["encoded", "identity", "encoded_streamed", "encoded_with_content_length"],
+    reach=["encoded", "identity", "encoded_streamed", "encoded_with_content_length",
+           "head_of_encoded", "head_content_length_checked"],
     units=["web.GZipContentEncoding.transform_first_chunk", "web.GZipContentEncoding.transform_chunk",
            "web.RequestHandler.flush", "web.RequestHandler.finish", "HTTP1Connection.write_headers/write/finish"],
     stubs=_STUBS + ["Accept-Encoding: gzip (fixed) in this harness"],
@@ -189,15 +213,14 @@ def h_gzip_stream(ct: int, prog: List[Tuple[int, int]]):
     """Any write/flush/finish program around the (patched) size threshold, per content type."""
     wire, closed = _serve("GET", "gzip", ct, 0, prog)
     _check("GET", True, ct, 0, prog, wire, closed)
+    wire_h, closed_h = _serve("HEAD", "gzip", ct, 0, prog)
+    _check_head_equals_get(wire, closed, wire_h, closed_h)
 
 
-def pre_decide(ae: int, o1: int, o2: int, ct: int, preset: int, head: bool, k: int,
-               streamed: bool) -> bool:
+def pre_decide(ae: int, o1: int, o2: int, ct: int, preset: int, k: int, streamed: bool) -> bool:
     if not (0 <= ae < len(AE_PREFIX) and 0 <= ct < P.T and 0 <= preset <= 2 and 2 <= k <= 3):
         return False
     if not (0x21 <= o1 <= 0x7e and 0x21 <= o2 <= 0x7e):
-        return False
-    if head and not P.H:
         return False
     return in_shard(ae + len(AE_PREFIX) * preset)
 
@@ -207,14 +230,14 @@ def pre_decide(ae: int, o1: int, o2: int, ct: int, preset: int, head: bool, k: i
     quick=dict(T=2, H=0, timeout=150, reach_timeout=150),
     thorough=dict(T=6, H=1, timeout=1500, reach_timeout=90),
     nshards=dict(quick=12, thorough=12),
-    reach=["encoded", "identity", "gzip_mentioned_by_solver"],
+    reach=["encoded", "identity", "gzip_mentioned_by_solver", "head_of_encoded"],
     units=["web.GZipContentEncoding.__init__", "web.GZipContentEncoding._compressible_type",
            "web.GZipContentEncoding.transform_first_chunk", "web.RequestHandler.flush/finish"],
     stubs=_STUBS + ["Accept-Encoding value = pooled prefix + 2 solver-chosen visible-ASCII characters, "
                     "injected on the parsed HTTPHeaders right after the real _parse_headers (rig.INJECT)"],
     outside=["real DEFLATE", "q-values (Accept-Encoding: gzip;q=0 is treated as a mention)"],
 )
-def h_gzip_decide(ae: int, o1: int, o2: int, ct: int, preset: int, head: bool, k: int, streamed: bool):
+def h_gzip_decide(ae: int, o1: int, o2: int, ct: int, preset: int, k: int, streamed: bool):
     """The compression decision: Accept-Encoding (solver-chosen characters), content type,
     pre-set Content-Encoding / Vary, body just below / at the threshold, buffered vs streamed."""
     if P.reach in ("encoded", "gzip_mentioned_by_solver") and not (ae == 1 and preset == 0 and ct == 0 and k == 3):
@@ -223,12 +246,15 @@ def h_gzip_decide(ae: int, o1: int, o2: int, ct: int, preset: int, head: bool, k
     pfx = AE_PREFIX[ae]
     value = None if pfx is None else pfx + chr(o1) + chr(o2)
     prog = [(W, k), (FL, 0)] if streamed else [(W, k)]
-    method = "HEAD" if head else "GET"
-    wire, closed = _serve(method, value, ct, preset, prog)
+    wire, closed = _serve("GET", value, ct, preset, prog)
     mentions = value is not None and "gzip" in value.lower()
     if mentions and ae != 0:
         reached("gzip_mentioned_by_solver")
-    _check(method, mentions, ct, preset, prog, wire, closed)
+    _check("GET", mentions, ct, preset, prog, wire, closed)
+    # the HEAD request with the same headers / program: same head, no body
+    wire_h, closed_h = _serve("HEAD", value, ct, preset, prog)
+    _check("HEAD", mentions, ct, preset, prog, wire_h, closed_h)
+    _check_head_equals_get(wire, closed, wire_h, closed_h)
 
 
 TECHNIQUE = ("CrossHair symbolic execution of the real gzip output transform inside the full handler/connection rig, "
